@@ -1,7 +1,10 @@
 #!/bin/sh
-# Offline build of the Lean library (models, theorems) and the native model driver.
+# Offline build of the Lean library (models, theorems) and the native model drivers.
 set -e
 DIR=$(cd "$(dirname "$0")" && pwd)
 cd "$DIR/lean"
 /venv/bin/python "$DIR/harness/translate.py" --all 2>/dev/null || true
 lake build
+# every theorem module (the checks build their own module again; this warms the cache)
+MODS=$(ls Xandikos/Theorems/*.lean | sed 's#/#.#g; s#\.lean$##')
+lake build xdriver xjdriver $MODS
